@@ -133,6 +133,12 @@ fn gen_doc(rng: &mut Rng) -> (Vec<(String, String)>, String, String, Vec<String>
       doc.push_str(nl);
     }
   }
+  if exporters.iter().any(|e| e == "lib.Alpha") && rng.chance(1, 3) {
+    // the exporting module is already imported, for another of its classes
+    let semi = if rng.bool() { ";" } else { "" };
+    doc.push_str(&format!("import {{ Helper }} from lib.Alpha{semi}{nl}"));
+    layout.push("exporter-already-imported-for-another-class".into());
+  }
   if nl == "\r\n" {
     layout.push("crlf".into());
   }
